@@ -2032,6 +2032,17 @@ class IMAPClientCommand:
                 raise BadSyntax(
                     "a mailbox name may not refer outside the mail directory"
                 )
+
+            # The mail directory itself is not a mailbox (`DELETE .` would
+            # remove every mailbox of the user.)
+            #
+            if mbox_name == "." and not reference:
+                raise BadSyntax("'.' is not a valid mailbox name")
+
+            # `INBOX/`, `./INBOX` and `/INBOX` are the inbox too.
+            #
+            if mbox_name.lower() == "inbox":
+                return "inbox"
         return mbox_name
 
     #######################################################################
